@@ -81,8 +81,11 @@ Section ABF.
     i_o : vec;                        (* force applied to each variable by the other biases at this step (read only when c_other) *)
     i_j : vec;                        (* Jacobian force fj of each variable at this configuration *)
     i_boundary : bool;                (* this step repeats the previous one (new run statement) *)
-    i_apply : bool                    (* applyBias (f_cvb_apply_force) at this step: the configuration value, or what
+    i_apply : bool;                   (* applyBias (f_cvb_apply_force) at this step: the configuration value, or what
                                          `cv bias <name> set apply_force 0|1` left *)
+    i_w : vec                         (* force applied to each variable at this step by the biases that bypass the extended
+                                         Lagrangian (add_bias_force_actual_value -> colvar::fb_actual: harmonicWalls by
+                                         default); i_o is the force of the other biases (add_bias_force -> colvar::fb) *)
   }.
 
   (* f_cv_apply_force of variable k: enabled (through require_feature_children(f_cvb_apply_force, ...)) while
@@ -230,10 +233,13 @@ Section ABF.
   Definition st_fapp (c : abf_cfg) (s : abf_state) (i : abf_in) : vec :=
     vbuild (c_nd c) (fun k => nmul O (vget (st_fabf c s i) k) (sfac c (st_bin c i))).
   Definition oeff (c : abf_cfg) (i : abf_in) (k : nat) : T := if bget (c_other c) k then vget (i_o i) k else n0 O.
+  Definition weff (c : abf_cfg) (i : abf_in) (k : nat) : T := if bget (c_other c) k then vget (i_w i) k else n0 O.
+  (* f = fb; f -= fj (hideJacobian); [extended Lagrangian]; f += fb_actual.  end_of_step: f_old = f, i.e. everything
+     Colvars applies to the variable at this step *)
   Definition st_f (c : abf_cfg) (s : abf_state) (i : abf_in) : vec :=
     vbuild (c_nd c) (fun k =>
       let fb := nadd O (vget (st_fapp c s i) k) (oeff c i k) in
-      if c_hidej c && cvapply c i k then nsub O fb (vget (i_j i) k) else fb).
+      nadd O (if c_hidej c && cvapply c i k then nsub O fb (vget (i_j i) k) else fb) (weff c i k)).
   Definition st_fold (c : abf_cfg) (s : abf_state) (i : abf_in) : vec :=
     vbuild (c_nd c) (fun k => if bget (c_subtract c) k then vget (st_f c s i) k else vget (s_fold s) k).
   (* colvar::communicate_forces hands f (times integer_power(value, 0) = 1) to the component, for the
@@ -269,6 +275,22 @@ Section ABF.
     end.
   Definition abf_run (c : abf_cfg) (h : list abf_in) := abf_run_from c (abf_init c) h.
 
+  (* ---- script entry points `cv bias <name> bin | bincount | binnum` (colvarbias_abf::current_bin, bin_count,
+     bin_num; colvar_grid::current_bin_flat_bound, value_to_bin_scalar_bound, address): the bin of the current values
+     with every index brought into the grid (periodic: C++ remainder, then clipped to [0, nx-1]), its flat address, the
+     count stored there (also local_sample_count(0)), and the number of bins *)
+  Definition bound1 (c : abf_cfg) (k : nat) (b : Z) : Z :=
+    let n := zget (c_nx c) k in
+    let b1 := if bget (c_periodic c) k then Z.rem b n else b in
+    if b1 <? 0 then 0 else if n <=? b1 then n - 1 else b1.
+  Definition bins_bound (c : abf_cfg) (x : vec) : idx :=
+    map (fun k => bound1 c k (value_to_bin (vget (c_lower c) k) (vget (c_width c) k) (vget x k))) (seq 0 (c_nd c)).
+  Definition flat_address (c : abf_cfg) (ix : idx) : Z :=
+    fold_left (fun a k => a * zget (c_nx c) k + zget ix k) (seq 0 (c_nd c)) 0.
+  Definition abf_bin_num (c : abf_cfg) : Z := fold_left (fun a k => a * zget (c_nx c) k) (seq 0 (c_nd c)) 1.
+  Definition abf_current_bin (c : abf_cfg) (x : vec) : Z := flat_address c (bins_bound c x).
+  Definition abf_count_current (c : abf_cfg) (s : abf_state) (x : vec) : Z := s_cnt s (bins_bound c x).
+
   (* ---- timeStepFactor k > 1 on the bias and its variables (impulse multiple time stepping; only available with
      same-step total forces: colvar.cpp excludes f_cv_multiple_ts with lagged total forces).
      colvarmodule::calc_colvars: bias and variables are awake at the steps whose number is a multiple of k, asleep
@@ -287,7 +309,7 @@ Section ABF.
     mkOut (o_bin o) (o_fabf o) fapp
           (vbuild (c_nd c) (fun d =>
              let fb := nadd O (vget fapp d) (oeff c i d) in
-             if c_hidej c && cvapply c i d then nsub O fb (nmul O (vget (i_j i) d) (nofZ O k)) else fb))
+             nadd O (if c_hidej c && cvapply c i d then nsub O fb (nmul O (vget (i_j i) d) (nofZ O k)) else fb) (weff c i d)))
           (o_rel o) (o_cont o) (o_tf o).
   Definition abf_mstep (c : abf_cfg) (k : Z) (s : abf_state) (i : abf_in) : abf_state * abf_out :=
     if awake k (st_clk s i)
